@@ -770,6 +770,36 @@ def stage_phase(run, tier, seed, cov, rp):
         {"stage": "phase", "scenario": scs[i], "impl": {k: v for k, v in outs[i]["obs"].items() if k != "items"}} for i in idx[:1]]
 
 
+def probe_stage(run, pid, tier, seed, identity):
+    """For other checks (C03, C06): what the phase reconciler records from the prober - the real
+    PhaseReconciler.ReconcilePhase with the prober of the real Parse on generated probe lists (messages text / empty /
+    blank / duplicate) and objects, judged by C17Corr.judge_pass (an object is recorded as failing iff a selecting probe
+    fails; the result is zero iff nothing failed). Failures are reported under `identity` for property `pid`."""
+    import collections as _c
+    cov = _c.Counter()
+    scs = gen_phase(seed, "quick", cov)[: 160 if tier == "quick" else 500]
+    outs = vlib.run_harness("probephase", scs, par=8)
+    terms, idx = [], []
+    for i, (sc, o) in enumerate(zip(scs, outs)):
+        if "obs" not in o or o["obs"].get("parseErr") or pass_problem(o["obs"]):
+            continue
+        terms.append(c_pass(sc["probes"], o["obs"]))
+        idx.append(i)
+    res, logs = vlib.judge_cases(pid, IMPORTS, "judge_pass", terms, 5, shard=45, tag="probe")
+    for l in logs:
+        run.violation("corr:%s/coq-eval" % pid, {"correspondence": "coq evaluation failed (probe stage)", "log": l}, False)
+    n = 0
+    for i, r in zip(idx, res):
+        if r is None:
+            continue
+        n += 1
+        if not r[1]:
+            run.violation(identity, {"scenario": scs[i], "impl": outs[i]["obs"], "stage": "probephase (checks/C17.py)"}, True)
+    run.cov["probe_stage"] = {"passes": n}
+    run.cov["evaluations"] = run.cov.get("evaluations", 0) + n
+    return n
+
+
 def gen_history(seed, tier, cov):
     r = vlib.rng(seed, "C17/history")
     m0 = widget(0, status={"observedGeneration": 1, "a": 1, "conditions": [AVAIL]})
